@@ -146,7 +146,8 @@ class Shapes(object):
     def key(self, K):
         r = self.r
         if K is int:
-            return r.choice([0, 1, -1, 42, 2 ** 40, -(2 ** 40), r.randint(-99, 99)])
+            return r.choice([0, 1, -1, 42, 2 ** 40, -(2 ** 40), 2 ** 53 + 1, 2 ** 53 + 3, -(2 ** 53) - 1, 2 ** 63 - 1, -(2 ** 63), 10 ** 20 + 7,
+                             r.randint(-99, 99), r.randint(2 ** 53, 2 ** 64)])
         if K is str:
             return r.choice(["", "a", "k", "key with space", "é", "1", "-1", "null"])
         return r.choice(self.enum_members)
